@@ -29,6 +29,7 @@ from static_frame.core.util import binary_transition
 from static_frame.core.util import column_1d_filter
 from static_frame.core.util import column_2d_filter
 from static_frame.core.util import DTYPE_BOOL
+from static_frame.core.util import DTYPE_COMPLEX_KIND
 from static_frame.core.util import DTYPE_INEXACT_KINDS
 from static_frame.core.util import DTYPE_OBJECT
 from static_frame.core.util import dtype_to_fill_value
@@ -905,7 +906,8 @@ class TypeBlocks(ContainerOperand):
             # print('out', out, out.dtype, self._row_dtype)
             for idx, b in enumerate(self._blocks):
 
-                if astype_pre and b.dtype != dtype:
+                if astype_pre and b.dtype != dtype and not (b.dtype.kind == DTYPE_COMPLEX_KIND and dtype.kind != DTYPE_COMPLEX_KIND):
+                    # (a complex block is handed over as it is when the result is real, as for var and std: casting it first would drop the imaginary part)
                     b = b.astype(dtype)
 
                 if axis == 0: # Combine rows, end with columns shape.
